@@ -784,7 +784,7 @@ func (f *Frame) guardCheck(ins *ssa.FieldAddr, lv *LValue, st *State) {
 		u.addObl(st, "lock:held", fmt.Sprintf("%s.%s#%d", g.Type, g.Field, ord), Select(h, lockAddr), nil)
 		// a write to guarded state must happen in the first critical section of this call: a decision taken in an
 		// earlier critical section (e.g. through a callee that locks and unlocks) is stale by the time of the write
-		if guardedWrite(ins) {
+		if guardedWrite(ins) && !(u.spec != nil && u.spec.Opts["single-threaded"] == "true") {
 			acq, oka := st.ghost["$acq"]
 			acq0 := u.ghostInit("$acq", ArraySort(SInt, SInt))
 			if !oka {
